@@ -31,6 +31,9 @@ type gzipResponseWriter struct {
 	bufferExceeded bool // Track if we exceeded max buffer size (or gave up buffering)
 	committed      bool // the header has been sent to the underlying writer
 	hijacked       bool
+	// headerAtWriteHeader is the header as it stood when the handler called WriteHeader:
+	// net/http sends that, whatever the handler does to the map afterwards
+	headerAtWriteHeader http.Header
 }
 
 // WriteHeader records the status code. The header is sent later, once it is known
@@ -48,6 +51,23 @@ func (g *gzipResponseWriter) WriteHeader(code int) {
 
 	g.statusCode = code
 	g.wroteHeader = true
+	g.headerAtWriteHeader = g.ResponseWriter.Header().Clone()
+}
+
+// restoreHeader undoes changes made to the header map after the handler's WriteHeader: they
+// do not belong to the response. Called before the plugin looks at or completes the header.
+func (g *gzipResponseWriter) restoreHeader() {
+	if g.headerAtWriteHeader == nil {
+		return
+	}
+	h := g.ResponseWriter.Header()
+	for k := range h {
+		delete(h, k)
+	}
+	for k, v := range g.headerAtWriteHeader {
+		h[k] = v
+	}
+	g.headerAtWriteHeader = nil
 }
 
 // commit sends the recorded header to the underlying writer
@@ -70,6 +90,7 @@ func (g *gzipResponseWriter) passThrough() {
 		return
 	}
 	g.bufferExceeded = true
+	g.restoreHeader()
 	g.commit()
 	// Flush existing buffer uncompressed
 	if g.buf.Len() > 0 {
@@ -135,6 +156,7 @@ func (g *gzipResponseWriter) Finish() error {
 		return nil
 	}
 
+	g.restoreHeader()
 	body := g.buf.Bytes()
 
 	// Nothing to compress (HEAD-less empty bodies, 204, 304, redirects)
